@@ -1,6 +1,8 @@
 import CssVerif.Lemmas.Globals
 import CssVerif.Lemmas.GlobalsSites
 import CssVerif.Gen.C12Grammars
+import CssVerif.Lemmas.GlobalsMemo
+import CssVerif.Lemmas.GlobalsMutables
 /-!
 # C12 — no hidden state: history-independent results, global modes restored
 
@@ -372,5 +374,167 @@ example : quiet (.combine (.parseUrl (.fresh ⟨false, true⟩) none [] .content
   decide
 example : topOK mediaEnv (.direct [.pp 0 (.lst [])]) = true ∧ topOK mediaEnv (.direct [.pp 1 (.lst [])]) = false := by
   decide
+
+/-! ## T12.4 — the memo tables are transparent (`Model/GlobalsMemo.lean`)
+
+`_TOKENIZER_CACHE`, the tables a `Tokenizer` object keeps, `util.LazyRegex`. What the computations compute is a
+parameter: the theorems hold for every `cmp` / `re`. -/
+
+section memo
+open CssVerif.Memo
+variable {ε τ ρ : Type}
+
+/-- tie (a''): every module-level / class-level mutable object of the package, every statement that can change one,
+and the fields of Tokenizer / LazyRegex / Profiles / the error handler written outside `__init__`, regenerated from
+the sources on this run, are the tables the roles were written against -/
+theorem mutables_as_modelled :
+    CssVerif.Gen.C12M.defs = expectedDefs.map (·.1) ∧ CssVerif.Gen.C12M.writes = expectedWrites ∧
+    CssVerif.Gen.C12M.fields = expectedFields := by
+  refine ⟨?_, ?_, ?_⟩ <;> decide +kernel
+
+/-- no object whose role is "constant table" (or "filled while its module is imported") is written by any statement
+of the package that runs after the import -/
+theorem constants_never_written :
+    (CssVerif.Gen.C12M.defs.all fun d =>
+      !((rolesOfName d.2.2.1).all Role.isFixed) ||
+      (runtimeWrites CssVerif.Gen.C12M.writes d.2.2.1).isEmpty) = true := by decide +kernel
+
+/-- the cache is written by its look-up (`Tokenizer.__init__`, the store of line 61) and cleared by `settings.set`;
+of the two tables the computation reads, nothing writes `MACROS`, and `PRODUCTIONS` is written by `settings.set`
+alone — the function that clears the cache -/
+theorem memo_writers :
+    runtimeWrites CssVerif.Gen.C12M.writes "_TOKENIZER_CACHE" =
+      [("_TOKENIZER_CACHE", "cssutils/settings.py", "set", "call-clear"),
+       ("_TOKENIZER_CACHE", "cssutils/tokenize2.py", "Tokenizer.__init__", "setitem")] ∧
+    runtimeWrites CssVerif.Gen.C12M.writes "MACROS" = [] ∧
+    runtimeWrites CssVerif.Gen.C12M.writes "PRODUCTIONS" =
+      [("PRODUCTIONS", "cssutils/settings.py", "set", "call-insert")] := by decide +kernel
+
+/-- the tables handed out by the cache (shared by all `Tokenizer` objects of one key) are bound in `__init__` and
+never changed; a `Tokenizer` changes nothing but its push-back queue; a `LazyRegex` is written by `ensure` only
+(`pattern` never) -/
+theorem memo_values_never_written :
+    (["tokenmatches", "commentmatcher", "urimatcher"].all fun n =>
+      (runtimeWrites CssVerif.Gen.C12M.writes n).isEmpty) = true ∧
+    CssVerif.Gen.C12M.fields.filter (·.1 == "Tokenizer") =
+      [("Tokenizer", "clear", "_pushed", "set"), ("Tokenizer", "push", "_pushed", "set")] ∧
+    CssVerif.Gen.C12M.fields.filter (·.1 == "LazyRegex") =
+      [("LazyRegex", "ensure", "flags", "set"), ("LazyRegex", "ensure", "groupindex", "set"),
+       ("LazyRegex", "ensure", "groups", "set"), ("LazyRegex", "ensure", "matcher", "set")] := by decide +kernel
+
+/-- T12.4 **look-ups equal recomputation after every history.** Whatever `Tokenizer(...)` calls (any arguments,
+raising or not) and `settings.set` calls happened before, in any order, starting from the empty cache: the tables a
+new `Tokenizer(macros, productions)` gets are exactly what the computation gives for these arguments under the
+module-level tables as they are now — value or exception. -/
+theorem tokenizer_cache_transparent (cmp : Cmp ε τ) (G : TkGlobals) (ops : List TkOp) (m : MacrosArg) (p : ProdsArg) :
+    (newTokenizer cmp (tkRun cmp (TkState.cold G) ops) m p).1.map (·.1) =
+      tablesOf cmp (tkRun cmp (TkState.cold G) ops).glob m p :=
+  newTokenizer_result cmp _ (tkRun_sound cmp _ (sound_cold cmp G) ops) m p
+
+/-- hence the tables do not depend on the history, only on the explicit settings in it: the same call after
+the `settings.set` calls alone gives the same tables -/
+theorem tokenizer_history_independent (cmp : Cmp ε τ) (G : TkGlobals) (ops : List TkOp) (m : MacrosArg) (p : ProdsArg) :
+    (newTokenizer cmp (tkRun cmp (TkState.cold G) ops) m p).1.map (·.1) =
+      (newTokenizer cmp (tkRun cmp (TkState.cold G) (tkExplicit ops)) m p).1.map (·.1) := by
+  rw [tokenizer_cache_transparent, tokenizer_cache_transparent,
+    tkRun_glob cmp (TkState.cold G) (TkState.cold G) rfl ops]
+
+/-- two caches that are both sound for the same module-level tables are indistinguishable -/
+theorem memo_noninterference (cmp : Cmp ε τ) (s₁ s₂ : TkState τ) (h₁ : Sound cmp s₁) (h₂ : Sound cmp s₂)
+    (hg : s₁.glob = s₂.glob) (m : MacrosArg) (p : ProdsArg) :
+    (newTokenizer cmp s₁ m p).1.map (·.1) = (newTokenizer cmp s₂ m p).1.map (·.1) := by
+  rw [newTokenizer_result cmp s₁ h₁, newTokenizer_result cmp s₂ h₂, hg]
+
+/-- the cache is a cache: constructing a Tokenizer with the same arguments again (or with a dict of the same items:
+the key is built from the sorted items) finds the entry and hands out the stored tables -/
+theorem second_lookup_is_a_hit (cmp : Cmp ε τ) (s : TkState τ) (m : MacrosArg) (p : ProdsArg) (t : τ) (hit : Bool)
+    (h : (newTokenizer cmp s m p).1 = .ok (t, hit)) :
+    (newTokenizer cmp (newTokenizer cmp s m p).2 m p).1 = .ok (t, true) :=
+  newTokenizer_again cmp s m p t hit h
+
+/-- non-vacuity: the empty cache and everything reachable from it is sound -/
+example (cmp : Cmp ε τ) (G : TkGlobals) (ops : List TkOp) : Sound cmp (tkRun cmp (TkState.cold G) ops) :=
+  tkRun_sound cmp _ (sound_cold cmp G) ops
+
+/-- the key does not depend on the order in which the dict was filled (evaluated on a sample), and `None`, `{}`
+are different keys with the same tables -/
+example : keyOf (some ⟨[([98], [50]), ([97], [49])], by decide⟩) none = keyOf (some ⟨[([97], [49]), ([98], [50])], by decide⟩) none ∧
+    keyOf none none ≠ keyOf (some ⟨[], by decide⟩) none := by decide
+
+/-- a small instance for kernel-evaluated examples: two macros, three productions -/
+def sampleG : TkGlobals :=
+  { macros := [([104], [91, 48, 45, 57, 97, 45, 102, 93]), ([110, 108], [92, 110])],                           -- h = [0-9a-f], nl = \\n
+    prods := [([66, 79, 77], [120]), (sURI, [117, 123, 104, 125]), (sCOMMENT, [99, 123, 110, 108, 125])],             -- BOM = x, URI = u{h}, COMMENT = c{nl}
+    dx := ([70, 85, 78, 67, 84, 73, 79, 78], [112, 114, 111, 103, 105, 100, 123, 104, 125]) }                                            -- FUNCTION = progid{h}
+
+/-- the cache is in use: the second look-up of the same key is a hit and returns the stored tables -/
+example :
+    (newTokenizer (pyCompile 8) (TkState.cold sampleG) none none).1.map (·.2) = .ok false ∧
+    (newTokenizer (pyCompile 8) (tkRun (pyCompile 8) (TkState.cold sampleG) [.new none none]) none none).1.map (·.2)
+      = .ok true := by decide
+
+/-- line 16 of settings.py (`_TOKENIZER_CACHE.clear()`) is needed: without it a look-up after the setting returns
+the tables computed before it, which are not the recomputation -/
+theorem settings_must_clear_the_cache :
+    let s := settingsSetNoClear (tkRun (pyCompile 8) (TkState.cold sampleG) [.new none none])
+    (newTokenizer (pyCompile 8) s none none).1.map (·.1) ≠ tablesOf (pyCompile 8) s.glob none none := by decide
+
+/-- A `Tokenizer` object keeps the tables it was given: they are the recomputation under the current module-level
+tables as long as no `settings.set` happened since the object was created.
+FULL STATEMENT (false, see `tokenizer_object_stale_after_settings`; finding C12-settings-stale-tokenizers): the same
+without `hq` — the tables of every living `Tokenizer` are what a new one would get. -/
+theorem tokenizer_object_current_partial (cmp : Cmp ε τ) (s : TkState τ) (hs : Sound cmp s) (m : MacrosArg) (p : ProdsArg)
+    (ops : List TkOp) (hq : tkExplicit ops = []) (t : τ) (hit : Bool) (h : (newTokenizer cmp s m p).1 = .ok (t, hit)) :
+    (tkRun cmp (newTokenizer cmp s m p).2 ops).insts[s.insts.length]? = some t ∧
+    tablesOf cmp (tkRun cmp (newTokenizer cmp s m p).2 ops).glob m p = .ok t := by
+  constructor
+  · obtain ⟨l, hl⟩ := tkRun_insts cmp (newTokenizer cmp s m p).2 ops
+    rw [hl, newTokenizer_insts cmp s m p t hit h]
+    simp
+  · have hg := tkRun_glob cmp (newTokenizer cmp s m p).2 (newTokenizer cmp s m p).2 rfl ops
+    rw [hq] at hg
+    simp only [tkRun, List.foldl_nil] at hg
+    rw [show (tkRun cmp (newTokenizer cmp s m p).2 ops).glob = s.glob from by
+      rw [← newTokenizer_glob cmp s m p]; exact hg]
+    have := newTokenizer_result cmp s hs m p
+    rw [h] at this
+    exact this.symm
+
+/-- non-vacuity of `tokenizer_object_current_partial` -/
+example : tkExplicit [.new none none, .new (some ⟨[([104], [120])], by decide⟩) none] = [] ∧
+    ((newTokenizer (pyCompile 8) (TkState.cold sampleG) none none).1.map (·.2)) = .ok false := by decide
+
+/-- the negation of the full statement at a witness (finding C12-settings-stale-tokenizers): an object created
+before `settings.set` — `prodparser.tokenizer`, `Base.__tokenizer2`, the tokenizer of an existing `CSSParser` — keeps
+the tables without the new production, a `Tokenizer` created afterwards has it -/
+theorem tokenizer_object_stale_after_settings :
+    let s := tkRun (pyCompile 8) (TkState.cold sampleG) [.new none none, .settings]
+    (s.insts[0]?.map fun t => Except.ok t) ≠ some (tablesOf (pyCompile 8) s.glob none none) ∧
+    (newTokenizer (pyCompile 8) s none none).1.map (·.1) = tablesOf (pyCompile 8) s.glob none none := by decide
+
+/-- T12.4 for `util.LazyRegex`: after any history of method calls on an object created as `LazyRegex(pattern, flags)`,
+a method call answers what `re.compile(pattern, flags)` answers — or raises what `re.compile` raises; in
+particular the `AttributeError` on a `None` matcher cannot happen -/
+theorem lazy_regex_transparent {κ α : Type} (re : ReLib ε ρ) (ask : ρ → κ → α) (pattern : Str) (flags : Nat)
+    (history : List κ) (q : κ) :
+    (((Lazy.new pattern flags).run re ask history).query re ask q).1 =
+      (match re.compile pattern flags with
+       | .ok r => .ok (ask r q)
+       | .error e => .error (.compile e)) :=
+  (query_spec re ask pattern flags _ (run_linv re ask pattern flags _ (linv_new re pattern flags) history) q).2
+
+theorem lazy_never_none {κ α : Type} (re : ReLib ε ρ) (ask : ρ → κ → α) (pattern : Str) (flags : Nat)
+    (history : List κ) (q : κ) :
+    (((Lazy.new pattern flags).run re ask history).query re ask q).1 ≠ .error .noneAttr := by
+  rw [lazy_regex_transparent]
+  cases re.compile pattern flags <;> simp
+
+/-- what IS observable of the memo: the public attribute `flags` is the constructor's argument before the first use
+and the compiled object's afterwards (`util.py:1018`) -/
+example : let re : ReLib Unit Nat := { compile := fun _ f => .ok (f + 32), flagsOf := id, groupsOf := fun _ => 0 }
+    (Lazy.new [102, 46, 111] 0 : Lazy Nat).flags = 0 ∧
+    ((Lazy.new [102, 46, 111] 0 : Lazy Nat).query re (fun _ (_ : Unit) => ()) ()).2.flags = 32 := by decide
+
+end memo
 
 end CssVerif.C12
